@@ -183,6 +183,7 @@ pub fn profile_for(prop: &str, cancelable: bool, rng: &mut Rng) -> Profile {
             w.anew = 8;
             w.acall = 22;
             w.adrop = 3;
+            pf.p_traceless_scope = 25;
             w.curlocal = 5;
             w.sleep = 3;
             pf.adapter_kinds = vec![AKind::Future];
@@ -195,6 +196,7 @@ pub fn profile_for(prop: &str, cancelable: bool, rng: &mut Rng) -> Profile {
             w.anew = 8;
             w.acall = 24;
             w.adrop = 3;
+            pf.p_traceless_scope = 25;
             w.curlocal = 5;
             w.sleep = 3;
             pf.adapter_kinds = vec![AKind::Stream, AKind::Sink, AKind::Duplex];
@@ -256,6 +258,14 @@ pub fn profile_for(prop: &str, cancelable: bool, rng: &mut Rng) -> Profile {
         "C02" | "C03" | "C04" | "C05" | "C06" | "C11" | "C16" | "C17" | "C18" => 2,
         _ => 0,
     };
+    // a few futures / streams / sinks / duplex objects in every record-checking profile: adapters
+    // open scopes of their own, and what they get wrong shows in ids, sampling, times, contexts
+    if w.anew == 0 && matches!(prop, "C01" | "C02" | "C03" | "C04" | "C05" | "C06" | "C10" | "C11" | "C17" | "C18") {
+        w.anew = 2;
+        w.acall = 5;
+        w.adrop = 1;
+        pf.adapter_kinds = vec![AKind::Future, AKind::Stream, AKind::Sink, AKind::Duplex];
+    }
     // events built some operations before they are attached
     w.prepevent = match prop {
         "C18" => 8,
